@@ -4,6 +4,7 @@ import Gca.RateLimiter
 import Gca.Props.C19
 import Gca.EventLog
 import Gca.Codec.ServerMap
+import Gca.Client.Model
 import Std.Data.HashMap
 /-
 Line-protocol driver. Each input line is `<kind> <k=v ...> => <observed>` as
@@ -34,6 +35,8 @@ structure St where
   cfg    : Cfg := {}
   el     : Option EL.Log := none
   rl     : RL.State := RL.init 0 0
+  hist   : Cl.Hist := ⟨0, []⟩
+  cl     : Option Cl.Client := none
   lines  : Nat := 0
   mism   : Nat := 0
   misses : Nat := 0
@@ -50,8 +53,17 @@ def noSign : Bytes → Bytes := fun _ => []
 
 def parseAuthServers (b : Bytes) : List AuthServer := (AuthServer.decodeList b.length b).getD []
 
+/-- Servers given field by field (`key,banned,loc,http,tcp,udp,sig;...`): the only way to pass
+entries whose location does not fit the wire format. -/
+def parseServerFields (s : String) : List AuthServer :=
+  (if s.isEmpty then [] else s.splitOn ";").filterMap (fun e => match e.splitOn "," with
+    | [k, b, loc, h, t, u, sg] =>
+      some ⟨(bytesOfHex k).getD [], b == "1", (bytesOfHex loc).getD [], h.toNat!, t.toNat!, u.toNat!, (bytesOfHex sg).getD []⟩
+    | _ => none)
+
 def parseMigration (a : Args) : Migration :=
-  ⟨argHex a "eq", argHex a "gca", argNat a "id", parseAuthServers (argHex a "servers"), argHex a "sig"⟩
+  let servers := if (a.lookup "slist").isSome then parseServerFields (arg a "slist") else parseAuthServers (argHex a "servers")
+  ⟨argHex a "eq", argHex a "gca", argNat a "id", servers, argHex a "sig"⟩
 
 /-- Translate one server line into a model operation. -/
 def srvOp (kind : String) (a : Args) : Option Op :=
@@ -327,6 +339,124 @@ def handleRL (st : St) (kind : String) (a : Args) (obs : String) : IO St := do
     if obs.startsWith m then return st else report st kind m obs
   | _ => report st kind "unknown-line-kind" obs
 
+/-! Client: history store, calibration, energy rows -/
+
+def histCanon (h : Cl.Hist) : String := s!"origin={h.origin} slots={joinWith "," (h.slots.map toString)}"
+
+def optTok (s : String) : Option (Option Nat) :=
+  if s == "absent" then none else if s == "none" then some none else some s.toNat?
+
+/-- amd64 `uint64(float64)` for values whose truncation fits 64 signed bits; `none` otherwise. -/
+def f2u (x : Float) : Option Nat :=
+  if x.isNaN || x.abs >= 9223372036854775808.0 then none
+  else if x >= 0 then some x.toUInt64.toNat
+  else some ((18446744073709551616 - (0 - x).toUInt64.toNat) % 18446744073709551616)
+
+def parseCServers (s : String) : FMap Bytes CServer :=
+  (s.splitOn ";").filterMap (fun e => match e.splitOn "," with
+    | [k, b, loc, h, t, u] => some ((bytesOfHex k).getD [], (⟨b == "1", (bytesOfHex loc).getD [], h.toNat!, t.toNat!, u.toNat!⟩ : CServer))
+    | _ => none)
+
+def canonCServers (m : FMap Bytes CServer) : String :=
+  joinWith ";" (sortStrings (m.map (fun e =>
+    s!"{hx e.1},{if e.2.banned then 1 else 0},{hx e.2.loc},{e.2.http},{e.2.tcp},{e.2.udp}")))
+
+def handleCl (st : St) (kind : String) (a : Args) (obs : String) : IO St := do
+  match kind with
+  | "cl.client.new" =>
+    let sv := parseCServers (arg a "servers")
+    return { st with cl := some { pubKey := argHex a "ck", gcaKey := argHex a "gk", shortId := argNat a "id", servers := sv,
+                                   primary := [], hist := st.hist, diskServers := sv, diskGCA := argHex a "gk",
+                                   diskShortId := argNat a "id" } }
+  | "cl.round" =>
+    match st.cl with
+    | none => report st kind "no-client" obs
+    | some c =>
+      let c := { c with hist := st.hist }
+      let V : Cl.Verify := fun k m sg => (st.oracle.get? (hexOfBytes k ++ "|" ++ hexOfBytes m ++ "|" ++ hexOfBytes sg)).getD false
+      let now := argNat a "now"
+      let choices : List (Bytes × Cl.Attempt) := (if (arg a "choices").isEmpty then [] else (arg a "choices").splitOn ";").filterMap (fun ch =>
+        match ch.splitOn ":" with
+        | [k, "fail"] => some ((bytesOfHex k).getD [], Cl.Attempt.fail)
+        | [k, "ok", stream] =>
+          let key := (bytesOfHex k).getD []
+          let r := (Cl.readFramed ((bytesOfHex stream).getD [])).bind (fun resp => Cl.parseReply V c.pubKey c.gcaKey key now resp)
+          some (key, match r with | some p => Cl.Attempt.ok p | none => Cl.Attempt.fail)
+        | _ => none)
+      let (c', out) := Cl.syncRound c choices
+      let st := { st with cl := some c' }
+      let latest := argNat a "latest"
+      let (res, resent) := match out with
+        | .synced p _ => ("synced", Cl.resend c'.hist latest p.off p.bits)
+        | .badChoice => ("BADCHOICE", [])
+        | _ => ("failed", [])
+      let disk := s!"gca={hx c'.diskGCA} id={c'.diskShortId} servers={canonCServers c'.diskServers}"
+      let m := s!"{res} lockfree=1 sigs=true gk={hx c'.gcaKey} id={c'.shortId} servers={canonCServers c'.servers} disk=[{disk}] resent={joinWith "," (resent.map (fun r => s!"{r.ts}.{r.energy}"))}"
+      if m == obs then return st else report st kind m obs
+  | "cl.restart" =>
+    match st.cl with
+    | none => report st kind "no-client" obs
+    | some c =>
+      let c' := { c with gcaKey := c.diskGCA, shortId := c.diskShortId, servers := c.diskServers }
+      let st := { st with cl := some c' }
+      let m := s!"gk={hx c'.gcaKey} id={c'.shortId} servers={canonCServers c'.servers}"
+      if m == obs then return st else report st kind m obs
+  | "cl.hist.new" => return { st with hist := ⟨argNat a "origin", []⟩ }
+  | "cl.hist.save" =>
+    match st.hist.save (argNat a "ts") (argNat a "v") with
+    | none =>
+      let m := "err " ++ histCanon st.hist
+      if m == obs then return st else report st kind m obs
+    | some h' =>
+      let st := { st with hist := h' }
+      let m := "ok " ++ histCanon h'
+      if m == obs then return st else report st kind m obs
+  | "cl.hist.load" =>
+    let m := match st.hist.load (argNat a "ts") with | none => "err" | some v => toString v
+    if m == obs then return st else report st kind m obs
+  | "cl.hist.probe" =>
+    -- range guards on an empty store (the slot list is not materialised)
+    let origin := argNat a "origin"; let ts := argNat a "ts"
+    let inRange := decide (origin ≤ ts ∧ ts - origin < Cl.maxHistorySlots)
+    let m := s!"save={inRange} load={decide (ts < origin) || inRange} origin-slot=0"
+    if m == obs then return st else report st kind m obs
+  | "cl.ct" =>
+    let r := Cl.readCT (arg a "present" == "1") (optTok (arg a "l1")) (optTok (arg a "l2")) (argNat a "dm", argNat a "dd")
+    let m := match r with | none => "error" | some (x, y) => s!"{x} {y}"
+    if m == obs then return st else report st kind m obs
+  | "cl.reply" =>
+    -- the bytes the fake server wrote: 2-byte length prefix, then the reply
+    let stream := argHex a "resp"
+    let V : Cl.Verify := fun k m sg => (st.oracle.get? (hexOfBytes k ++ "|" ++ hexOfBytes m ++ "|" ++ hexOfBytes sg)).getD false
+    let r := (Cl.readFramed stream).bind (fun resp =>
+      Cl.parseReply V (argHex a "ck") (argHex a "gk") (argHex a "sk") (argNat a "now") resp)
+    let m := match r with
+      | none => "err"
+      | some p => s!"off={p.off} bits={hx p.bits} newgca={hx p.newGCA} newid={p.newId} servers={hx (AuthServer.encodeList p.servers)}"
+    if m == obs then return st else report st kind m obs
+  | "cl.energy" =>
+    let mult := Float.ofBits (UInt64.ofNat (argNat a "mult"))
+    let dv := Float.ofBits (UInt64.ofNat (argNat a "div"))
+    -- rows: <nfields>:<ts|none>:<float bits|none>; the float part of the rule is evaluated with hardware doubles
+    let rows := ((arg a "rows").splitOn ";").filterMap (fun r => match r.splitOn ":" with
+      | [nf, ts, x] =>
+        let reading : Option Cl.Reading := match x.toNat? with
+          | none => some .unparsable
+          | some bits =>
+            let xf := Float.ofBits (UInt64.ofNat bits)
+            if xf > -24.0 && xf < 24.0 then some .small
+            else (f2u (mult * xf / dv)).map .scaled
+        some ((⟨nf.toNat!, ts.toInt?, reading.getD (.scaled 0)⟩ : Cl.Row), reading.isNone)
+      | _ => none)
+    let recs := rows.filterMap (fun (r, unspec) => (Cl.rowRecord (argInt a "g") r).map (fun rc => (rc, unspec)))
+    -- records whose scaled value does not fit 64 signed bits are compared by position only
+    let obsL := if obs.isEmpty then [] else obs.splitOn ","
+    let mL := recs.map (fun (rc, unspec) => if unspec then s!"{rc.ts}.*" else s!"{rc.ts}.{rc.energy}")
+    let same := mL.length == obsL.length && (mL.zip obsL).all (fun (m, o) =>
+      if m.endsWith ".*" then (o.splitOn ".").head? == (m.splitOn ".").head? else m == o)
+    if same then return st else report st kind (joinWith "," mL) obs
+  | _ => report st kind "unknown-line-kind" obs
+
 def handleLine (st : St) (line : String) : IO St := do
   let st := { st with lines := st.lines + 1 }
   let line := line.trimAscii.toString
@@ -349,6 +479,7 @@ def handleLine (st : St) (line : String) : IO St := do
       else if kind.startsWith "srv." then handleSrv st kind a obs
       else if kind.startsWith "el." then handleEL st kind a obs
       else if kind.startsWith "rl." then handleRL st kind a obs
+      else if kind.startsWith "cl." then handleCl st kind a obs
       else handlePure st kind a obs
 
 partial def loop (h : IO.FS.Stream) (st : St) : IO St := do
